@@ -217,6 +217,9 @@ func (g *node1Gen) emit(desc, ev string, pre string, res simResp) {
 		out = fmt.Sprintf("(GOk %s %s)", coqObs(res.resp), g.n.dump())
 	}
 	g.w.states[pre] = true
+	for _, a := range g.n.takeVoteAlarms() {
+		g.w.findings = append(g.w.findings, "C05|vote-request-before-persist|"+a+"|")
+	}
 	if res.panicv == nil && !g.n.dead {
 		if d := g.n.termFileMismatch(); d != "" {
 			g.w.findings = append(g.w.findings, fmt.Sprintf("C05|vote-not-durable|after %s: %s|", desc, d))
